@@ -190,4 +190,26 @@ theorem nonhex_escape_rejected (sm : Marker) (n : Nat) (s : Sc) (hk : s.inp.kind
 /-- the characters that are hexadecimal digits are exactly 0-9, a-f, A-F: in particular no sign -/
 example : Sc.isHex '+' = false ∧ Sc.isHex '-' = false ∧ Sc.isHex ' ' = false ∧ Sc.isHex 'g' = false ∧ Sc.isHex '\x00' = false := by decide
 
+open SaphyrModel.Sc in
+/-- **A required simple key that has gone stale is an error** — the component behind "an implicit key longer than
+    1024 characters" and "a quoted implicit key spanning lines": in block context, if some pending simple key that
+    is *required* (it sits at the indentation of its block mapping) started on an earlier line, or more than 1024
+    characters back, `stale_simple_keys` reports an error — in every scanner state. (A pending key that is not
+    required is dropped silently; the `:` that follows then finds no key.) -/
+theorem stale_required_key_rejected (s : Sc) (hfl : s.flowLevel = 0)
+    (h : ∃ sk ∈ s.simpleKeys, sk.possible = true ∧ sk.required = true ∧
+      (sk.mark.line < s.mark.line ∨ sk.mark.index + 1024 < s.mark.index)) :
+    ∃ e, staleSimpleKeys s = .err e := by
+  obtain ⟨sk, hmem, hp, hr, hstale⟩ := h
+  unfold staleSimpleKeys
+  simp only [Bind.bind, getS]
+  have hany : (s.simpleKeys.any fun sk => (sk.possible && s.flowLevel == 0 &&
+      (decide (sk.mark.line < s.mark.line) || decide (sk.mark.index + 1024 < s.mark.index))) && sk.required) = true := by
+    rw [List.any_eq_true]
+    refine ⟨sk, hmem, ?_⟩
+    simp only [hp, hfl, hr, beq_self_eq_true, Bool.and_self, Bool.true_and, Bool.and_true, Bool.or_eq_true, decide_eq_true_eq]
+    exact hstale
+  simp only [hany, ↓reduceIte]
+  exact ⟨_, rfl⟩
+
 end SaphyrModel.C06
